@@ -488,6 +488,121 @@ RULES_BODY = {
 # --------------------------------------------------------------------------- weaving
 
 
+def rule_blockcall(body, argstr, text, fname, rel, qual, counts, info):
+    """R8c: the body of the loop that a `//@block ... loopbody=` directive proves separately is replaced, in the enclosing
+    function, by the call of that block given in the section text. Checked mechanically: the block exists, is cut from this
+    very function with a loop-header anchor that is found here, every assignment to an accumulator variable (acc=) inside the
+    replaced body is `<acc> = true;` (so `if r { acc = true; }` after the call is the same accumulation), and every `rebind=`
+    variable is re-bound after the loop by the verbatim `let` statement found before the loop."""
+    parts = argstr.split()
+    bname = parts[0]
+    opts = dict(p.split('=', 1) for p in parts[1:])
+    blk = BLOCKS.get(bname)
+    if blk is None:
+        raise ExtractError('lost anchor: %s blockcall %s: no such block' % (fname, bname))
+    if blk.args[0] != rel or blk.args[1] != qual or not blk.opt('loopbody'):
+        raise ExtractError('blockcall %s: block is not a loop body of %s' % (bname, qual))
+    lines = body.split('\n')
+    a = find_line(lines, blk.opt('loopbody').lstrip('~'), 1, fname + ' blockcall-loop')
+    head = '\n'.join(lines[:a])
+    rest = '\n'.join(lines[a:])
+    pos = _loop_open_brace(rest)
+    if pos is None:
+        raise ExtractError('lost anchor: %s blockcall %s: not a loop header' % (fname, bname))
+    close = _match_brace(rest, pos)
+    inner = rest[pos + 1:close]
+    for acc in filter(None, opts.get('acc', '').split(',')):
+        for m in re.finditer(r'\b%s\s*([-+|&^]?=)(?!=)\s*([^;]*);' % re.escape(acc), inner):
+            if m.group(1) != '=' or m.group(2).strip() != 'true':
+                raise ExtractError('blockcall %s: accumulator %s is assigned `%s` in the loop body (only `= true` is covered by the rule)'
+                                   % (bname, acc, m.group(0)))
+    indent = re.match(r'\s*', lines[a]).group(0) + '    '
+    new_inner = '\n' + '\n'.join(indent + t.strip() for t in text if t.strip()) + '\n' + indent[:-4]
+    tail = rest[close + 1:]
+    rebinds = []
+    for v in filter(None, opts.get('rebind', '').split(',')):
+        ms = [l for l in lines[:a] if re.match(r'\s*let\s+%s\s*=.*;\s*$' % re.escape(v), l)]
+        if len(ms) != 1:
+            raise ExtractError('lost anchor: %s blockcall rebind %s: %d let statements found' % (fname, v, len(ms)))
+        tl = tail.split('\n')
+        use = [i for i, l in enumerate(tl) if re.search(r'\b%s\b' % re.escape(v), re.sub(r'//.*', '', l))]
+        if use:
+            ind2 = re.match(r'\s*', tl[use[0]]).group(0)
+            tl.insert(use[0], ind2 + ms[0].strip() + ' // [R8c] re-bound')
+            tail = '\n'.join(tl)
+    counts['R8c'] = counts.get('R8c', 0) + 1
+    info.setdefault('blockcalls', []).append({'block': bname, 'replaced_lines': inner.count('\n') + 1, 'rebound': opts.get('rebind', '')})
+    return head + '\n' + rest[:pos + 1] + new_inner + '}' + tail
+
+
+def rule_r21_body(body, counts):
+    """R21: `for X in HashSet::<T>::from_iter(V.iter()) {` -> `let distinct__ = verif_distinct_refs(&V); for X in distinct__ {`
+    (by-value HashSet iteration is outside the Verus subset; the stub returns the distinct references in an unspecified order)."""
+    body, n = re.subn(r'^([ \t]*)for (\w+) in HashSet::<[^>]*>::from_iter\((\w+)\.iter\(\)\) \{',
+                      r'\1let distinct__ = verif_distinct_refs(&\3);\n\1for \2 in distinct__ {', body, flags=re.M)
+    if n:
+        counts['R21'] = counts.get('R21', 0) + n
+    return body
+
+
+RULES_BODY['R21'] = rule_r21_body
+
+
+def rule_r23_body(body, counts):
+    """R23: `format!("p0{}p1{}p2", a, b)` -> `verif_fmt2("p0", &a, "p1", &b, "p2")` (only plain `{}` placeholders, at most 3, literal
+    format string without escaped braces); the stub's result is the concatenation of the literal pieces and the Display text of the
+    arguments. Anything else is left to Verus (format! with an unspecified result)."""
+    out = []
+    pos = 0
+    n_done = 0
+    for m in re.finditer(r'\bformat!\(', body):
+        if m.start() < pos:
+            continue
+        open_idx = m.end() - 1
+        close_idx = _match_brace(body, open_idx)
+        inner = body[open_idx + 1:close_idx]
+        lm = re.match(r'\s*"((?:\\.|[^"\\])*)"\s*(,|$)', inner)
+        if not lm:
+            continue
+        lit = lm.group(1)
+        if '{{' in lit or '}}' in lit or re.search(r'\{[^}]', lit):
+            continue
+        pieces = lit.split('{}')
+        rest = inner[lm.end():].strip().rstrip(',')
+        # split the arguments at top-level commas
+        args = []
+        depth = 0
+        cur = ''
+        for ch in rest:
+            if ch in '([{':
+                depth += 1
+            elif ch in ')]}':
+                depth -= 1
+            if ch == ',' and depth == 0:
+                args.append(cur.strip()); cur = ''
+            else:
+                cur += ch
+        if cur.strip():
+            args.append(cur.strip())
+        if len(args) != len(pieces) - 1 or not (1 <= len(args) <= 3) or any('=' in a and not '==' in a for a in args):
+            continue
+        parts = []
+        for i, a in enumerate(args):
+            parts.append('"%s"' % pieces[i])
+            parts.append('&' + a)
+        parts.append('"%s"' % pieces[-1])
+        out.append(body[pos:m.start()] + 'verif_fmt%d(%s)' % (len(args), ', '.join(parts)))
+        pos = close_idx + 1
+        n_done += 1
+    out.append(body[pos:])
+    if n_done:
+        counts['R23'] = counts.get('R23', 0) + n_done
+    return ''.join(out)
+
+
+RULES_BODY['R23'] = rule_r23_body
+
+
 def find_line(lines, regex, k, what):
     rx = re.compile(regex)
     hits = [i for i, l in enumerate(lines) if rx.search(l) and not l.lstrip().startswith('// [')]
@@ -876,6 +991,9 @@ def emit_fn(d, unit, report, canaries):
         report['fns'].append(entry)
         return '\n'.join(out), None
     # --- body
+    for name, argstr, text in d.sections:
+        if name == 'blockcall':
+            body = rule_blockcall(body, argstr, text, fname, rel, qual, counts, info)
     body = strip_statement_macro(body, counts)
     body = rule_time(body, counts)
     if 'R1' in rules:
@@ -1053,9 +1171,17 @@ def count_builtin(body):
     return n
 
 
+BLOCKS = {}
+
+
 def prepass(world_files):
     """collect the names of functions whose contract has a precondition: a call of one of them is a call-site obligation"""
     REQ_FNS.clear()
+    BLOCKS.clear()
+    for wf in world_files:
+        for seg in parse_template(wf):
+            if not isinstance(seg, str) and seg.kind == 'block':
+                BLOCKS[seg.args[2]] = seg
     for wf in world_files:
         for seg in parse_template(wf):
             if isinstance(seg, str):
